@@ -347,6 +347,17 @@ case_sign(int code_i, int sidx, const int *seq, int len, int add_ma) {
 			n_dup_refused ++;
 			continue;
 		}
+		if (0 != rc && 2 == a->type && RADIUS_PKT_HDR_LEN_GET(pkt) == cur_size) {
+			/* finding F1 (see NOTES.md): reported, then the case goes on through the lower-level entry of the same
+			 * family with the state radius_pkt_attr_add documents ("plain text, zero padded, hidden late, on pkt sign"),
+			 * so that sign/verify of password-carrying packets stay explored while F1 exists */
+			uint8_t *padded = (uint8_t *)calloc(1, raw);
+			vh_fail("radius_pkt_attr_add:user-password-refused", "rc=%d adding %s at size %zu into %zu bytes", rc, a->label, cur_size, cap);
+			if (a->len) memcpy(padded, a->val, a->len);
+			rc = radius_pkt_attr_add_raw(pkt, cap, &size, 2, (uint8_t)raw, padded, NULL, &off);
+			free(padded);
+			n_transitions ++;
+		}
 		if (0 != rc) { vh_fail("radius_pkt_attr_add:rc", "rc=%d adding %s at size %zu into %zu bytes", rc, a->label, cur_size, cap); goto out; }
 		cur_size += 2 + raw;
 		if (size != cur_size || RADIUS_PKT_HDR_LEN_GET(pkt) != cur_size || off != want_off) { vh_fail("radius_pkt_attr_add:size", "size_ret=%zu hdr len=%u offset=%zu, want %zu %zu", size, RADIUS_PKT_HDR_LEN_GET(pkt), off, cur_size, want_off); goto out; }
@@ -397,7 +408,8 @@ lib_decide(const uint8_t *bytes, size_t size, const uint8_t *secret, size_t slen
 static void
 case_verify(int code_i, int sidx, const int *seq, int len, int add_ma) {
 	model_t m; uint8_t req20[20], *base, *work; rad_pkt_hdr_p req; size_t ref_len, pw_off, ma_off, i; int rc_chk, rc_ver, la, rd, k, w, fails_before; const char *why;
-	const uint8_t *secret = SECRET_BYTES[sidx]; size_t slen = SECRET_LEN[sidx]; static const int MASKS[2] = { 0x01, 0x80 };
+	const uint8_t *secret = SECRET_BYTES[sidx]; size_t slen = SECRET_LEN[sidx]; static const int MASKS[8] = { 0x01, 0x80, 0x02, 0x04, 0x08, 0x10, 0x20, 0x40 };	/* quick: the first two; thorough: every single-bit flip */
+	int nmasks = vh_thorough ? 8 : 2;
 	int covered_all;
 
 	if (!vh_begin("radius_pkt_verify")) return;
@@ -414,7 +426,10 @@ case_verify(int code_i, int sidx, const int *seq, int len, int add_ma) {
 	work = (uint8_t *)vh_dup(base, ref_len);
 	rc_chk = radius_pkt_chk((rad_pkt_hdr_p)work, ref_len);
 	rc_ver = (0 == rc_chk) ? radius_pkt_verify((rad_pkt_hdr_p)work, (uint8_t *)(size_t)secret, slen, req) : -999;
-	if (0 != rc_chk || 0 != rc_ver) vh_fail("rejects-rfc-packet", "chk=%d verify=%d on a packet built per RFC 2865/2866/2869", rc_chk, rc_ver);
+	/* RFC 2869 does not define Message-Authenticator for accounting packets: the library's own consistency for them is
+	 * judged in case_sign (rejects-own-signature), acceptance of the de-facto construction is not demanded here */
+	if ((0 != rc_chk || 0 != rc_ver) && ma_off && (4 == m.code || 5 == m.code)) ;
+	else if (0 != rc_chk || 0 != rc_ver) vh_fail("rejects-rfc-packet", "chk=%d verify=%d on a packet built per RFC 2865/2866/2869", rc_chk, rc_ver);
 	else list_check("radius_pkt_verify", (rad_pkt_hdr_p)work, ref_len, &m, 1 == m.code);
 	free(work);
 	/* every single-byte corruption.  Everything is covered by an authenticator unless this is an Access-Request:
@@ -422,7 +437,7 @@ case_verify(int code_i, int sidx, const int *seq, int len, int add_ma) {
 	covered_all = (1 != m.code);
 	PHASE("corruption");
 	for (i = 0; i < ref_len; i ++) {
-		for (k = 0; k < 2; k ++) {
+		for (k = 0; k < nmasks; k ++) {
 			base[i] ^= (uint8_t)MASKS[k];
 			cur.c_off = i; cur.c_mask = MASKS[k]; vh_desc_set = 0;
 			rd = ref_verify(base, ref_len, secret, slen, req ? req20 + 4 : NULL, &why);
@@ -558,7 +573,7 @@ main(int argc, char **argv) {
 	space_init();
 	for (i = 1; i < argc; i ++) if (0 == strcmp(argv[i], "--selftest")) return (selftest());
 	vh_init(argc, argv);
-	maxlen = vh_thorough ? 3 : 2;
+	maxlen = 3;
 	password_cases();
 	vh_set_describer(desc_case);
 	enumerate(maxlen, case_sign, 0);
